@@ -140,10 +140,16 @@ def _c13_second_phase(prop, tier, seed, outdir, fv, limit_child, prelude):
     results, dead, procs = [], [], []
     for k, f in enumerate(sorted(glob.glob(os.path.join(outdir, "C13.xproc.*.json")))):
         st = json.load(open(f))
-        cmd = [fv, prop, "--suite", st["suite"], "--tier", tier, "--seed", str(seed), "--out", outdir, "--shard", f"{900 + k}/1000", "--resume", f]
+        # the resuming process also comes from the other build profile
+        target = os.path.dirname(os.path.dirname(fv))
+        rprof = "verif" if st.get("saver_profile") == "release" else "release"
+        rbin = os.path.join(target, "p-release", "release", "fv") if rprof == "release" else fv
+        if not os.path.exists(rbin):
+            rbin, rprof = fv, "verif"
+        cmd = [rbin, prop, "--suite", st["suite"], "--tier", tier, "--seed", str(seed), "--out", outdir, "--shard", f"{900 + k}/1000", "--resume", f]
         if not st.get("saver_prelude"):
             cmd += ["--prelude", prelude[st["suite"]]]
-        procs.append((st["suite"], 900 + k, subprocess.Popen(cmd, stdout=subprocess.DEVNULL, stderr=subprocess.DEVNULL, preexec_fn=limit_child)))
+        procs.append((st["suite"], 900 + k, subprocess.Popen(cmd, stdout=subprocess.DEVNULL, stderr=subprocess.DEVNULL, preexec_fn=limit_child, env=dict(os.environ, FV_PROFILE_NAME=rprof))))
     for s, k, p in procs:
         try:
             rc = p.wait(timeout=600)
@@ -267,7 +273,7 @@ PROPS = {
     "C14": {
         "level": "exploration", "eval_keys": ["binary_decodes", "json_decodes", "protocol_calls", "consume_calls"],
         "rule": "evaluations = decoder calls on structure-aware mutated encodings (binary and JSON, all 24 types) + protocol entry-point calls on hostile wire-representable peer material + mutate-decode-consume calls, each under catch_unwind with overflow checks and debug assertions on and a write-ahead record for dead-process attribution; distinct = (decoder) and (entry point x hostile-material class)",
-        "dead_is_violation": True, "supplementary": _c14_miri,
+        "dead_is_violation": True, "supplementary": _c14_miri, "mixed_profiles": False,
         "minimum": _all(_min_counts(binary_decodes=(300000, 10000000), protocol_calls=(15000, 100000)), _c14_min),
         "assumptions": COMMON_ASSUME + ["hostile values are laundered through their own wire encoding: only what a peer can deliver is used", "the caller's own secret state is honestly generated"],
     },
